@@ -459,6 +459,8 @@ class ExportHdf5(Contract):
         cfg = ctx.obj("Config", {"_d": {
             "experiment": {"sample": "s", "event count": count0, "run index": 1},
             "imaging": {"pixel size": 0.34}, "setup": {"medium": "CellCarrier"},
+            # a key that exists only by a naming rule (not in the static key tables)
+            "online_filter": {"area_um,deform soft limit": True, "target event count": 100},
             "user": {"my key": 5}, "filtering": {"enable filters": True}}})
         ds = ctx.obj("DS", {"_N": N, "_feats": {"deform": deform, "image": image}, "config": cfg,
                             "format": self.fmt, "features_innate": ["deform", "image"],
@@ -511,6 +513,8 @@ class ExportHdf5(Contract):
         posts.append(("metadata sections and user entries are carried over",
                       z3.BoolVal(meta.get("imaging") == {"pixel size": 0.34} and meta.get("setup") == {"medium": "CellCarrier"}
                                  and meta.get("user") == {"my key": 5} and "filtering" not in meta
+                                 and meta.get("online_filter") == {"area_um,deform soft limit": True,
+                                                                   "target event count": 100}
                                  and meta.get("experiment", {}).get("sample") == "s")))
         rid = meta.get("experiment", {}).get("run identifier")
         posts.append(("a filtered export gets a new run identifier '<source id>-xxxx'; an unfiltered one none",
